@@ -283,6 +283,19 @@ def drive_pairs(rec, dt, X, Y, cls, fpa, apmath, utils, alg, full=True, opts="al
         judge_sum(rec, "apmath.quick_two_sum", X, Y, s, t, fast=True)
         h, l = apmath.two_prod(ctx, X, Y)
         judge_prod(rec, "apmath.two_prod", X, Y, h, l, scale=True)
+        # the fma-assuming variants cannot be judged for value here (NumPy has no fused multiply-add, the error word is meaningless), but every
+        # combination of the documented options must at least evaluate: the high word is the rounded product
+        for kw in (dict(assume_fma=True), dict(assume_fma=True, fix_overflow=True), dict(assume_fma=True, scale=False, fix_overflow=True)):
+            rec.count("option-combinations:evaluated")
+            try:
+                h2, _ = fpa.mul_dekker(ctx, X, Y, **kw)
+                h3, _ = apmath.two_prod(ctx, X, Y, **{k_: v_ for k_, v_ in kw.items() if k_ != "scale"})
+            except Exception as e:
+                rec.violation("option-combination-raises", dict(dtype=numpy.dtype(dt).name, options=kw, exc=f"{type(e).__name__}: {e}"[:200]))
+                continue
+            fin = numpy.isfinite(X * Y)
+            if not (numpy.asarray(h2)[fin] == (X * Y)[fin]).all():
+                rec.violation("fma-path-high-word", dict(dtype=numpy.dtype(dt).name, options=kw))
         # utils copies
         s, t = utils.add_2sum(X, Y)
         judge_sum(rec, "utils.add_2sum", X, Y, s, t)
